@@ -5,7 +5,7 @@ func init() {
 		ID: "C02",
 		Explanation: "decides the orientation of every last-writer-wins decision: Compare is the lexicographic sign function over (Era, Lamport, CUID); every overwrite of an existing element is guarded on all paths by 'existing strictly older than incoming'; updates never touch tombstones; the remote-insert skip loop passes only strictly newer siblings; the counter only adds. NOT decided: that 'greatest timestamp wins' follows from these guards over whole histories, 32-bit wrap-around, value-level outcomes.",
 		Assumptions: []string{"timestamps of distinct operations are distinct (C15)", "the enumerated mutation sites of R02.2 are the only ones (checked by the who-may-mutate part)"},
-		Rules:       []ruleFn{ruleR02_1, ruleR02_2, ruleR02_3, ruleR02_4, ruleR02_5},
+		Rules:       []ruleFn{ruleR02_1, ruleR02_2, ruleR02_3, ruleR02_4, ruleR02_5, ruleR15_1, ruleR01_4},
 	})
 }
 
@@ -15,7 +15,7 @@ func init() {
 		Explanation: "decides that applying an operation is deterministic and exhaustive in the shape of the code: no identifier allocation or positioning inside a Go-map iteration; every operation type a datatype emits has a local and a remote arm; remote apply reads only transmitted fields; local and remote arms call their own variant; plus the cross-listed comparison, key-injectivity, delimiter and clock-sync rules. NOT decided: that the merge functions commute over all interleavings.",
 		Assumptions: []string{"CHA call graph restricted to the orda packages over-approximates the calls made on an apply path"},
 		Rules: []ruleFn{ruleR01_1, ruleR01_2, func(w *World, r *Report) { ruleR01_3(w, r, false) }, ruleR01_4,
-			ruleR02_1, ruleR02_2, ruleR02_4},
+			ruleR02_1, ruleR02_2, ruleR02_4, ruleR04_2, ruleR04_3, ruleR04_4, ruleR04_6, ruleR15_1, ruleR15_3, ruleR15_5, ruleR09_2, ruleR09_3},
 	})
 }
 
@@ -24,7 +24,7 @@ func init() {
 		ID: "C03",
 		Explanation: "decides validate-before-consume: positions are validated before an operation is built, nil values are refused before construction, the operation id is rolled back on every failing path, a failed local execution appends nothing to the push buffer, and no result is used before its error is checked. NOT decided: value-level equality with the plain data structure, the bounds arithmetic inside the validators, nil values nested inside containers.",
 		Assumptions: []string{"validate* functions of the snapshots are correct"},
-		Rules:       []ruleFn{ruleR03_1, ruleR03_2, ruleR03_3, ruleR03_4, ruleR03_5},
+		Rules:       []ruleFn{ruleR03_1, ruleR03_2, ruleR03_3, ruleR03_4, ruleR03_5, ruleR04_5, ruleR04_4},
 	})
 }
 
